@@ -1,4 +1,5 @@
 import MpsVerif.Proofs.EagerMono
+import MpsVerif.Proofs.EagerWork
 /-!
 # C19 — EagerBatcher partitions its input and waits no longer than told
 
@@ -263,6 +264,17 @@ theorem C19_waits_no_longer_than_told (c : Cfg) (hbs : 1 ≤ c.bs) (hstrict : c.
       · omega
       · exact hcur (hi.held hg)
       · exact hcur (hi.done hg).1
+
+/-- the batcher never spins: in every run the number of steps of the batcher and the consumer
+    (`work as` = number of `take`/`timeout`/`emit`/`resume`/`stop` actions in `as`) is at most four per
+    arrival (`arrivals as` = number of `arrive` actions): no polling loop, no repeated time-outs on an
+    empty batch.  With `C19_no_stall` (something is always enabled unless the batcher legitimately
+    waits) this is the model-level "nothing loops or blocks forever". -/
+theorem C19_never_spins (c : Cfg) (as : List Act) (s : State)
+    (h : Core.run (step c) init as = some s) : work as ≤ 4 * arrivals as := by
+  have := run_pot c as init s h
+  simp [pot, init] at this
+  omega
 
 /-- the batcher and the consumer are deterministic: in any state at most one of
     `take`/`timeout`/`emit`/`resume`/`stop` is enabled, so the batches and their clocks are a function
